@@ -227,3 +227,100 @@ Proof.
   - split; [reflexivity|]. split; [reflexivity|].
     intros H. specialize (H [] (1, true) [(2, true); (3, true)] eq_refl). cbn in H. discriminate H. discriminate.
 Qed.
+
+(* ------------------------------------------------------------------ round 5: a cut that is not reached commits nothing (Sem/UntakenCut.v)
+   Edits that reason statically about a cut ("the alternative behind a branch that ends in a cut is dead code", "the clauses behind
+   a catch-all clause that starts with a cut are unreachable") are wrong exactly when the cut is not executed on a call. *)
+From YP Require Import Sem.UntakenCut.
+
+(* ( (C -> T ; !, E) ; B ): with C answered the cut of the else branch is not reached: T runs and, if it ends normally, B IS tried;
+   with C unanswered the cut is reached: E runs, B is not tried *)
+Theorem C05_untaken_else_cut : forall (S : Type) (I : str -> list sterm -> S -> list S * bool) C T E B s,
+  sem I (BOr (BOr (BIf C T) (BAnd BCut E)) B) s =
+  match opaque (sem I C s) with
+  | (x :: _, _) => por (sem I T x) (sem I B s)
+  | ([], FNorm) => seqr (sem I E) [s] FCut
+  | ([], f) => ([], f)
+  end.
+Proof. exact untaken_else_cut. Qed.
+Print Assumptions C05_untaken_else_cut.
+
+Theorem C05_untaken_else_cut_alternative_tried : forall (S : Type) (I : str -> list sterm -> S -> list S * bool) C T E B s x r e ts,
+  opaque (sem I C s) = (x :: r, e) -> sem I T x = (ts, FNorm) ->
+  sem I (BOr (BOr (BIf C T) (BAnd BCut E)) B) s = (ts ++ fst (sem I B s), snd (sem I B s))%list.
+Proof. exact untaken_else_cut_alternative_tried. Qed.
+Print Assumptions C05_untaken_else_cut_alternative_tried.
+
+(* the mirror image ( (C -> !, T ; E) ; B ) *)
+Theorem C05_untaken_then_cut : forall (S : Type) (I : str -> list sterm -> S -> list S * bool) C T E B s,
+  sem I (BOr (BOr (BIf C (BAnd BCut T)) E) B) s =
+  match opaque (sem I C s) with
+  | (x :: _, _) => seqr (sem I T) [x] FCut
+  | ([], FNorm) => por (sem I E s) (sem I B s)
+  | ([], f) => ([], f)
+  end.
+Proof. exact untaken_then_cut. Qed.
+Print Assumptions C05_untaken_then_cut.
+
+(* ( (G, !, E) ; B ): B is tried iff G fails *)
+Theorem C05_guarded_cut_alternative : forall (S : Type) (I : str -> list sterm -> S -> list S * bool) G E B s,
+  sem I (BOr (BAnd G (BAnd BCut E)) B) s =
+  match sem I G s with
+  | ([], FNorm) => sem I B s
+  | ([], g) => ([], g)
+  | (x :: _, _) => seqr (sem I E) [x] FCut
+  end.
+Proof. exact guarded_cut_alternative. Qed.
+Print Assumptions C05_guarded_cut_alternative.
+
+(* with a continuation K behind the construct (which the compiler duplicates into the branches) *)
+Theorem C05_untaken_else_cut_with_continuation : forall (S : Type) (I : str -> list sterm -> S -> list S * bool) C T E B K s x r e,
+  opaque (sem I C s) = (x :: r, e) ->
+  sem I (BAnd (BOr (BOr (BIf C T) (BAnd BCut E)) B) K) s = bindr (por (sem I T x) (sem I B s)) (sem I K).
+Proof. exact untaken_else_cut_with_continuation. Qed.
+Print Assumptions C05_untaken_else_cut_with_continuation.
+
+(* a clause whose head does not match the call is not entered: whatever its body (a neck cut included), the later clauses are tried *)
+Theorem C05_head_mismatch_skips_clause : forall call c rest cf,
+  head_unify 0 (clause_pos c) (c_args c) (fst (clause_enter c cf)) (snd (clause_enter c cf)) = HFail ->
+  clausesA call (c :: rest) cf = clausesA call rest (clause_enter c cf).
+Proof. exact head_mismatch_skips_clause. Qed.
+Print Assumptions C05_head_mismatch_skips_clause.
+
+Theorem C05_head_mismatch_body_irrelevant : forall call name args b1 b2 rest cf,
+  let c1 := {| c_name := name; c_args := args; c_body := b1 |} in
+  let c2 := {| c_name := name; c_args := args; c_body := b2 |} in
+  clause_fv_body c1 = clause_fv_body c2 ->
+  head_unify 0 (clause_pos c1) (c_args c1) (fst (clause_enter c1 cf)) (snd (clause_enter c1 cf)) = HFail ->
+  clausesA call (c1 :: rest) cf = clausesA call (c2 :: rest) cf.
+Proof. exact head_mismatch_body_irrelevant. Qed.
+Print Assumptions C05_head_mismatch_body_irrelevant.
+
+(* non-vacuity on the compiled-code model:
+     different(X,X) :- !, fail.   different(_,_).          (the head of clause 1 consists of variables only and does not match (a,b))
+     p(X,R) :- ( ( q(X) -> R = t ; !, R = e ) ; R = alt ).   p(_,late).   q(a).
+   different(a,b) has one answer, different(a,a) none; p(a,R): t, alt, late (cut not reached); p(b,R): e only (cut reached). *)
+Definition different_prog : program :=
+  [ {| c_name := d "different"; c_args := [SVar (d "X"); SVar (d "X")]; c_body := BAnd BCut BFail |};
+    {| c_name := d "different"; c_args := [SVar (d "x1"); SVar (d "x2")]; c_body := BTrue |} ].
+Definition untaken_prog : program :=
+  [ {| c_name := d "p"; c_args := [SVar (d "X"); SVar (d "R")];
+       c_body := BOr (BOr (BIf (BCall (d "q") [SVar (d "X")]) (BCall (d "=") [SVar (d "R"); SAtom (d "t")]))
+                          (BAnd BCut (BCall (d "=") [SVar (d "R"); SAtom (d "e")])))
+                     (BCall (d "=") [SVar (d "R"); SAtom (d "alt")]) |};
+    {| c_name := d "p"; c_args := [SVar (d "x1"); SAtom (d "late")]; c_body := BTrue |};
+    {| c_name := d "q"; c_args := [SAtom (d "a")]; c_body := BTrue |} ].
+Example C05_untaken_nonvacuous :
+  (exists ir, compile_program different_prog = Some ir /\
+     length (fst (query 10 ir (d "different") [TAtom (d "a"); TAtom (d "b")] {| sto := []; nxt := 0 |})) = 1 /\
+     length (fst (query 10 ir (d "different") [TAtom (d "a"); TAtom (d "a")] {| sto := []; nxt := 0 |})) = 0) /\
+  (exists ir, compile_program untaken_prog = Some ir /\
+     map (fun x => den (sto x) (TVar 0)) (fst (query 10 ir (d "p") [TAtom (d "a"); TVar 0] {| sto := []; nxt := 1 |}))
+       = [TAtom (d "t"); TAtom (d "alt"); TAtom (d "late")] /\
+     map (fun x => den (sto x) (TVar 0)) (fst (query 10 ir (d "p") [TAtom (d "b"); TVar 0] {| sto := []; nxt := 1 |}))
+       = [TAtom (d "e")]).
+Proof.
+  split.
+  - eexists. split; [vm_compute; reflexivity|]. split; vm_compute; reflexivity.
+  - eexists. split; [vm_compute; reflexivity|]. split; vm_compute; reflexivity.
+Qed.
